@@ -66,7 +66,9 @@ def jobs(ctx):
     add("coulomb/cell_bounded*8", J + "coulomb_atoms/cell_bounded.ini", 0.05 if not t else 0.2, 0.0093, samp=0.0043,
         chain=0.0057, n=8, sched=("list_scheduler",))
     # many pair handlers: the C heap grows past its first reallocation threshold (63 entries) and shrinks again
-    add("coulomb/power_bounded*12", J + "coulomb_atoms/power_bounded.ini", 1.2 if not t else 4.0, 0.13, samp=0.11,
+    # (bounds chosen so that several dumps are taken after the heap fell below a threshold it had exceeded: the
+    # coverage field dumps_of_shrunk_heap must be > 0, see run())
+    add("coulomb/power_bounded*12", J + "coulomb_atoms/power_bounded.ini", 2.4 if not t else 6.0, 0.29, samp=0.11,
         chain=0.17, n=12, sched=("heap_scheduler",))
     add("dipoles/cell_bounded", J + "dipoles/cell_bounded.ini", 0.4 if not t else 1.2, 0.047, samp=0.011, chain=0.013)
     add("dipoles/dipole_motion", J + "dipoles/dipole_motion.ini", 5.0 if not t else 16.0, 0.71, samp=0.2, chain=0.27,
@@ -139,6 +141,13 @@ def run_job(name, spec, dump, seed, res, stats, pool, only_dump=None):
             k = futs[fut]
             r = fut.result()
             stats["resumes"] += 1
+            hd, hr = (ref.get("heap") or [None] * len(marks))[k], (r.get("heap") or [None])[0]
+            if hd and hr and hr[1] < hd[1]:
+                # the dumped C heap had shrunk below an allocation threshold it once exceeded: the restored heap is
+                # allocated smaller than the dumped bookkeeping says
+                stats["dumps_of_shrunk_heap"] = stats.get("dumps_of_shrunk_heap", 0) + 1
+            if hd:
+                stats["max_heap_entries_at_dump"] = max(stats.get("max_heap_entries_at_dump", 0), hd[0])
             tail = log[marks[k]:]
             case = dict(case0, dump=k)
             if r["error"]:
@@ -228,6 +237,8 @@ def run(ctx):
     res.coverage = {
         "evaluations": stats["resumes"] + len(all_jobs), "distinct_nontrivial": stats["dumps"],
         "cell_order_comparisons": stats.get("order_comparisons", 0),
+        "dumps_of_shrunk_heap": stats.get("dumps_of_shrunk_heap", 0),
+        "max_heap_entries_at_dump": stats.get("max_heap_entries_at_dump", 0),
         "rule": "every dump written by each reference run (real DumpingOutputHandler, real Mersenne Twister, dumping "
                 "interval incommensurate with the other intervals; one variant with commensurate intervals = exact "
                 "ties) is resumed in a fresh interpreter exactly as resume.py does and compared event by event, bit "
